@@ -3,6 +3,7 @@ package checks
 import (
 	"encoding/json"
 	"fmt"
+	"sync"
 
 	"verifharness/internal/mon"
 	"verifharness/internal/reasm"
@@ -86,6 +87,34 @@ func reasmSpec(id string, which reasm.Which, snapshot bool, rule string, assumpt
 			one(h)
 		})
 		c.Add("random_histories", int64(nRandom))
+		// timed histories (the C19 generator: timeouts of milliseconds with real sleeps, Maintain): the same
+		// boundary oracle applies whatever made an event leave the buffer, expiry included
+		if !which.C10 {
+			nTimed := c.Pick(6000, 600_000)
+			sem := make(chan struct{}, 256)
+			var wg sync.WaitGroup
+			for i := 0; i < nTimed; i++ {
+				sem <- struct{}{}
+				wg.Add(1)
+				go func(i int) {
+					defer wg.Done()
+					defer func() { <-sem }()
+					h := genC19(c.Rand(7, uint64(i)))
+					tr := reasm.Execute(h, reasm.ExecOpts{})
+					fs, cl := reasm.Check(tr, which)
+					ev.Add(1)
+					deliveries.Add(int64(cl.Deliveries))
+					lostReports.Add(int64(cl.LostReports))
+					for _, f := range fs {
+						if f.Prop == id || f.Prop == "ANY" {
+							c.Violation(f.Sig, f.What+"\n  timed history: "+h.String(), h)
+						}
+					}
+				}(i)
+			}
+			wg.Wait()
+			c.Add("timed_histories", int64(nTimed))
+		}
 		// exhaustive small scope
 		var small int64
 		for _, base := range smallBases {
